@@ -97,8 +97,13 @@ def strategy_(draw, tier):
                 b.link(x, "+", h, "+")
                 b.link(h, "+", y, "+")
     b.fix_majority()
-    text = gen_graph.gfa_text(g, with_seq=False, order_seed=draw(st.integers(0, 999)))
-    return {"gfa": text, "order_seed": draw(st.integers(0, 10**6)), "by_chrom": draw(st.integers(0, 1)) == 1}
+    stale = None
+    if draw(st.integers(0, 2)) == 0:
+        # the graph was ordered before: every S line already carries BO/NO tags
+        stale = {n: ["BO:i:%d" % draw(st.integers(0, 40)), "NO:i:%d" % draw(st.integers(0, 4))] for n in g["nodes"]}
+    text = gen_graph.gfa_text(g, with_seq=False, order_seed=draw(st.integers(0, 999)), extra_tags=stale)
+    return {"gfa": text, "order_seed": draw(st.integers(0, 10**6)), "by_chrom": draw(st.integers(0, 1)) == 1,
+            "via": draw(st.sampled_from(["api", "api", "cli"]))}
 
 
 def strategy(tier):
@@ -145,14 +150,14 @@ def run_case(case):
     with core.workdir() as d:
         if case["order_seed"] % 3 == 0:
             # re-run into an output directory that already holds the result of an earlier run
-            ordergfa.run_order(d, case["gfa"], ",".join(order2), case["by_chrom"], sub="o1")
+            ordergfa.run_order(d, case["gfa"], ",".join(order2), case["by_chrom"], sub="o1", via=case.get("via", "api"))
             rerun = True
         else:
             rerun = False
-        res, files = ordergfa.run_order(d, case["gfa"], ",".join(order), case["by_chrom"], sub="o1")
+        res, files = ordergfa.run_order(d, case["gfa"], ",".join(order), case["by_chrom"], sub="o1", via=case.get("via", "api"))
         core.check(res[0] == "ok", "order_gfa with a non-chain component in the request (%s; non-chain: %s) did not complete normally: %s",
                    order, [c for c in order if status[c] == "bad"], res)
-        res2, files2 = ordergfa.run_order(d, case["gfa"], ",".join(order2), case["by_chrom"], sub="o2")
+        res2, files2 = ordergfa.run_order(d, case["gfa"], ",".join(order2), case["by_chrom"], sub="o2", via=case.get("via", "api"))
         core.check(res2[0] == "ok", "order_gfa on the chain-shaped chromosomes only (%s) failed: %s", order2, res2)
     core.check(sorted(files) == sorted(files2), "output files %s, but %s when the non-chain chromosomes are not requested",
                sorted(files), sorted(files2))
@@ -163,7 +168,7 @@ def run_case(case):
             k = next((i for i, (x, y) in enumerate(zip(a, b_)) if x != y), min(len(a), len(b_)))
             raise core.Violation("%s differs from the run without the non-chain chromosomes (order %s vs %s); first difference at line %d: %r vs %r"
                                  % (name, order, order2, k + 1, a[k] if k < len(a) else None, b_[k] if k < len(b_) else None))
-    cl = ["by_chrom" if case["by_chrom"] else "complete"] + (["rerun_into_same_outdir"] if rerun else [])
+    cl = ["by_chrom" if case["by_chrom"] else "complete", "via:" + case.get("via", "api")] + (["rerun_into_same_outdir"] if rerun else [])
     pos = [i for i, c in enumerate(order) if status[c] == "bad"]
     nontrivial = any(i < len(order) - 1 for i in pos)
     for c in order:
@@ -177,4 +182,6 @@ def run_case(case):
         cl.append("bad_first")
     if not bad:
         cl.append("no_bad_component")
+    if "\tBO:i:" in case["gfa"]:
+        cl.append("input_has_stale_BO_NO")
     return core.Result(nontrivial, cl)
